@@ -780,6 +780,14 @@ func checkC12Name(c c12Name) (ci caseInfo, err error) {
 		case 3:
 			// the duplicate comes into being through a fill: variable "zz9" is renamed to the name
 			return ast.NewListNode(ast.NewListNode(one(c.Name)), ast.NewUintNode(1, 5, "zz9")).FillVariables(map[string]interface{}{"zz9": c.Name})
+		case 5:
+			// ... or inside one item: its second variable is renamed to the name of its first
+			switch c.Site {
+			case model.A, model.L:
+				return ast.NewListNode(one(c.Name), "zz9").FillVariables(map[string]interface{}{"zz9": c.Name})
+			default:
+				return factory(c.Site, c.Name, "zz9", fillerFor(c.Site, 0)).FillVariables(map[string]interface{}{"zz9": c.Name})
+			}
 		case 4:
 			// ... or through an item value that brings the name along
 			return ast.NewListNode(ast.NewListNode(ast.NewBinaryNode(1), "zz9"), one(c.Name)).FillVariables(map[string]interface{}{"zz9": ast.NewListNode(ast.NewIntNode(2, c.Name))})
@@ -848,7 +856,7 @@ func TestC12Name(t *testing.T) {
 		return c12Name{
 			Site: rapid.SampledFrom([]string{model.I2, model.U4, model.F8, model.B, model.BOOLEAN, model.A, model.L, model.I8, model.F4, model.U1}).Draw(t, "site"),
 			Name: genName(t),
-			Dup:  rapid.SampledFrom([]int{0, 0, 0, 1, 2, 3, 4}).Draw(t, "dup"),
+			Dup:  rapid.SampledFrom([]int{0, 0, 0, 1, 2, 3, 4, 5}).Draw(t, "dup"),
 		}
 	}, checkC12Name)
 }
